@@ -30,8 +30,10 @@ ValuesOf(cfg, i) ==
    IF i > 3 THEN <<>>
    ELSE (IF (cfg[i].p = "none" /\ cfg[i].o = "none") \/ cfg[i].t = "-" THEN <<>> ELSE <<V(Keys[i][1], Keys[i][2], cfg[i].t)>>) \o ValuesOf(cfg, i + 1)
 
+(* nilsec: the operation's (empty) security list is built in code as a pointer to a nil slice (var own                *)
+(* openapi3.SecurityRequirements; op.Security = &own) instead of being read from a document: still "declares none"    *)
 MkU(os, ds, acc, cfg, body, mu, xb, xq, rb, un) ==
-   [unsized |-> un, opSec |-> os, docSec |-> ds, accepts |-> acc, pparams |-> ParamsOf(cfg, "p", 1), oparams |-> ParamsOf(cfg, "o", 1),
+   [nilsec |-> FALSE, unsized |-> un, opSec |-> os, docSec |-> ds, accepts |-> acc, pparams |-> ParamsOf(cfg, "p", 1), oparams |-> ParamsOf(cfg, "o", 1),
     values |-> ValuesOf(cfg, 1), body |-> body, multi |-> mu, exclBody |-> xb, exclQuery |-> xq, authReadsBody |-> rb]
 
 Mk(os, ds, acc, cfg, body, mu, xb, xq, rb) == MkU(os, ds, acc, cfg, body, mu, xb, xq, rb, FALSE)
@@ -47,6 +49,9 @@ Init ==
          cfg \in {NoParams, OneFailingQuery}, mu \in BOOLEAN, rb \in BOOLEAN :
         /\ (rb => body # "none")
         /\ case = Mk(os, ds, acc, cfg, body, mu, FALSE, FALSE, rb)
+   \* an empty operation-level list built in code (nil slice behind a non-nil pointer) over every document-level list
+   \/ \E ds \in DocSecs, acc \in SUBSET {"A", "B"}, mu \in BOOLEAN :
+        case = [Mk(L(<<>>), ds, acc, NoParams, "none", mu, FALSE, FALSE, FALSE) EXCEPT !.nilsec = TRUE]
    \* parameter focus: at most two active keys, every override pattern
    \/ \E cfg \in [1..3 -> KeyCfgs], sec \in {"nosec", "pass", "fail"}, body \in {"none", "pass", "fail"},
          mu \in BOOLEAN, xb \in BOOLEAN, xq \in BOOLEAN :
